@@ -5,9 +5,13 @@
 // planner/executor and by the Lean model; rows are compared as multisets keyed by
 // (group key, period end).  Property oracles: the Lean raw-point spec `specQuery`
 // (C06 regrouping, C07 window, C08 WHERE/HAVING) and implementation-only metamorphic
-// checks (C04: a probe returns the same rows before and after any query; C07: a
-// bounded query equals the unbounded one filtered to the window; C08: IN-subquery =
-// IN literal list).
+// checks (C04: a probe returns the same rows before and after any query).
+//
+// Every case has 3-6 query slots; a slot is a table query (this file), an IN-subquery
+// differential (insub.go: sub-query standalone, nested query, literal list, preset result;
+// the standalone and the nested query also go to the model and the spec) or a FROM-subquery
+// (fromsub.go: inner query standalone, nested query; model `runOver` and spec `specOver` over
+// the materialised rows, driver engine `subquery`).
 package query
 
 import (
@@ -46,7 +50,31 @@ type qspec struct {
 	WhereC  int // -1 none
 	Kind    string
 	Bounded bool
+	// WhereSQL is a WHERE clause given as text (any dimension predicate, IN-subqueries included);
+	// the model only sees its truth value per source row key, evaluated by the real goexpr
+	WhereSQL string
+	// Tag names the role of the query in the case ("" = a plain generated query); it prefixes
+	// the histogram key
+	Tag string
 }
+
+// genOpts steers genQuery.
+type genOpts struct {
+	Where      string // forced WHERE text ("" = the generator's own choice)
+	NoWhere    bool   // no WHERE at all
+	RichWhere  bool   // the generator may choose from extraWhere as well
+	RichHaving bool   // HAVING from the whole value grammar (genHaving)
+	MaxBack    int    // > 0: time ranges mostly stay within this many periods (the table's retention)
+}
+
+// binOK: the expression may be an operand of a binary expression (a top-level BOUNDED may not:
+// binaryExpr.Validate refuses it and the query would not parse).
+func binOK(n *gen.Node) bool { return n.Kind != "bounded" }
+
+// extraWhere extends the dimension-predicate grammar beyond gen.Conds (which IF also uses):
+// comparisons on the int dim, LIKE, IN lists, IS [NOT] NULL, NOT, AND/OR, a function.
+var extraWhere = []string{"n = 1", "n > 1", "n <> 2", "g IS NULL", "d IS NOT NULL", "d LIKE 'x%'", "d IN ('x', 'z')",
+	"n IN (2, 3)", "NOT (g = '1')", "LEN(d) = 1", "d = 'x' AND g = '1'", "d = 'y' OR n < 2", "d < 'y'", "g > '1'"}
 
 // qNode shifts IF condition ids of query-level IFs to 100+ (they are evaluated on the source
 // row key, not on the point's dims).
@@ -84,10 +112,25 @@ func genDataset(r *hk.Rng, s *dbk.Schema) []interface{} {
 
 func fmtTime(t time.Time) string { return t.UTC().Format(time.RFC3339Nano) }
 
-func genQuery(r *hk.Rng, s *dbk.Schema, now time.Time) *qspec {
+func genQuery(r *hk.Rng, s *dbk.Schema, now time.Time, o genOpts) *qspec {
 	q := &qspec{Mem: r.Chance(4, 5), WhereC: -1}
 	all := s.AllFields()
 	tf := func() dbk.FieldDef { return all[r.Intn(len(all))] }
+	// operand of a binary expression
+	tfb := func() dbk.FieldDef {
+		for tries := 0; tries < 8; tries++ {
+			if f := tf(); binOK(f.Node) {
+				return f
+			}
+		}
+		return all[0]
+	}
+	back := func(k int) int {
+		if o.MaxBack > 0 && k > o.MaxBack && r.Chance(3, 4) {
+			return 1 + k%o.MaxBack
+		}
+		return k
+	}
 	var sel []string
 	selectAll := r.Chance(1, 5)
 	if selectAll {
@@ -101,7 +144,11 @@ func genQuery(r *hk.Rng, s *dbk.Schema, now time.Time) *qspec {
 			name := fmt.Sprintf("q%d", i)
 			a := tf()
 			var it item
-			switch r.Intn(8) {
+			form := r.Intn(8)
+			if form >= 3 && form != 5 && !binOK(a.Node) {
+				a = tfb()
+			}
+			switch form {
 			case 0, 1, 2:
 				it = item{Name: a.Name, Node: a.Node, SQL: a.Name}
 				// a plain column keeps its own name; avoid duplicates
@@ -115,12 +162,12 @@ func genQuery(r *hk.Rng, s *dbk.Schema, now time.Time) *qspec {
 					continue
 				}
 			case 3:
-				b := tf()
+				b := tfb()
 				op := hk.Pick(r, []string{"+", "-", "*"})
 				it = item{Name: name, Node: &gen.Node{Kind: "bin", Name: op, Kids: []*gen.Node{a.Node, b.Node}},
 					SQL: fmt.Sprintf("%s %s %s AS %s", a.Name, op, b.Name, name)}
 			case 4:
-				b := tf()
+				b := tfb()
 				it = item{Name: name, Node: &gen.Node{Kind: "bin", Name: "/", Kids: []*gen.Node{a.Node, b.Node}},
 					SQL: fmt.Sprintf("%s / %s AS %s", a.Name, b.Name, name)}
 			case 5:
@@ -130,9 +177,23 @@ func genQuery(r *hk.Rng, s *dbk.Schema, now time.Time) *qspec {
 				it = item{Name: name, Node: &gen.Node{Kind: "bin", Name: "*", Kids: []*gen.Node{a.Node, {Kind: "const", Const: 2}}},
 					SQL: fmt.Sprintf("%s * 2 AS %s", a.Name, name)}
 			default:
-				b := tf()
+				b := tfb()
 				it = item{Name: name, Node: &gen.Node{Kind: "bin", Name: ">", Kids: []*gen.Node{a.Node, b.Node}},
 					SQL: fmt.Sprintf("%s > %s AS %s", a.Name, b.Name, name)}
+			}
+			// a derived expression that prints like a table field takes that field's column and
+			// lets the planner prune the fields it names (observation pruned-field-reresolved,
+			// kept as a fixed witness): not generated
+			if it.SQL != it.Name {
+				clash := false
+				for _, f := range all {
+					if f.Node.Build().String() == it.Node.Build().String() {
+						clash = true
+					}
+				}
+				if clash {
+					continue
+				}
 			}
 			q.Items = append(q.Items, it)
 			sel = append(sel, it.SQL)
@@ -147,23 +208,33 @@ func genQuery(r *hk.Rng, s *dbk.Schema, now time.Time) *qspec {
 	// time range
 	switch r.Intn(6) {
 	case 0:
-		off := time.Duration(r.Range(1, 12)) * s.Res
+		off := time.Duration(back(r.Range(1, 12))) * s.Res
 		text += fmt.Sprintf(" ASOF '-%v'", off)
 		q.Bounded = true
 	case 1:
-		a := time.Duration(r.Range(3, 14)) * s.Res
+		a := time.Duration(back(r.Range(3, 14))) * s.Res
 		u := time.Duration(r.Range(0, 2)) * s.Res
 		text += fmt.Sprintf(" ASOF '-%v' UNTIL '-%v'", a, u+time.Duration(r.Range(0, 1))*s.Res/2)
 		q.Bounded = true
 	case 2:
-		a := now.Add(-time.Duration(r.Range(2, 14))*s.Res + time.Duration(r.Range(0, 1))*s.Res/3)
+		a := now.Add(-time.Duration(back(r.Range(2, 14)))*s.Res + time.Duration(r.Range(0, 1))*s.Res/3)
 		u := now.Add(-time.Duration(r.Range(0, 3)) * s.Res)
 		text += fmt.Sprintf(" ASOF '%s' UNTIL '%s'", fmtTime(a), fmtTime(u))
 		q.Bounded = true
 	}
-	if r.Chance(1, 4) {
-		q.WhereC = r.Intn(len(gen.Conds))
-		text += " WHERE " + gen.CondText[q.WhereC]
+	switch {
+	case o.NoWhere:
+	case o.Where != "":
+		q.WhereSQL = o.Where
+		text += " WHERE " + o.Where
+	case r.Chance(1, 4):
+		if o.RichWhere && r.Chance(1, 2) {
+			q.WhereSQL = hk.Pick(r, extraWhere)
+			text += " WHERE " + q.WhereSQL
+		} else {
+			q.WhereC = r.Intn(len(gen.Conds))
+			text += " WHERE " + gen.CondText[q.WhereC]
+		}
 	}
 	// group by
 	var gb []string
@@ -193,14 +264,83 @@ func genQuery(r *hk.Rng, s *dbk.Schema, now time.Time) *qspec {
 		text += " GROUP BY " + strings.Join(gb, ", ")
 	}
 	if r.Chance(1, 5) {
-		a := tf()
-		c := float64(r.Range(0, 4))
-		op := hk.Pick(r, []string{">", "<=", "="})
-		q.Having = &item{Name: "_having", Node: &gen.Node{Kind: "bin", Name: op, Kids: []*gen.Node{a.Node, {Kind: "const", Const: c}}}}
-		text += fmt.Sprintf(" HAVING %s %s %v", a.Name, op, c)
+		if o.RichHaving {
+			var ops []operand
+			for _, f := range all {
+				ops = append(ops, operand{f.Name, f.Node})
+			}
+			h, htext := genHaving(r, ops)
+			q.Having = h
+			text += " HAVING " + htext
+		} else {
+			a := tfb()
+			c := float64(r.Range(0, 4))
+			op := hk.Pick(r, []string{">", "<=", "="})
+			q.Having = &item{Name: "_having", Node: &gen.Node{Kind: "bin", Name: op, Kids: []*gen.Node{a.Node, {Kind: "const", Const: c}}}}
+			text += fmt.Sprintf(" HAVING %s %s %v", a.Name, op, c)
+		}
 	}
 	q.SQL = text
 	return q
+}
+
+// operand is something a HAVING clause can name: SQL text and the expression it resolves to.
+type operand struct {
+	SQL  string
+	Node *gen.Node
+}
+
+// genHaving generates a predicate of the value grammar over the operands: comparisons with
+// constants and between operands, arithmetic inside, AND/OR of two comparisons.  Arithmetic and
+// operand-vs-operand comparisons are only built from exactly representable operands (no
+// quotient inside), so that the model's rationals and the float64 arithmetic agree on which side
+// of the threshold a value lies.
+func genHaving(r *hk.Rng, all []operand) (*item, string) {
+	var ops, exact []operand
+	for _, o := range all {
+		if binOK(o.Node) {
+			ops = append(ops, o)
+		}
+	}
+	if len(ops) == 0 {
+		ops = []operand{{"_points", &gen.Node{Kind: "agg", Name: "SUM", Kids: []*gen.Node{{Kind: "field", Name: "_point"}}}}}
+	}
+	for _, o := range ops {
+		if tolFor(o.Node) == 0 {
+			exact = append(exact, o)
+		}
+	}
+	cmp := func() (*gen.Node, string) {
+		a := hk.Pick(r, ops)
+		c := float64(r.Range(0, 4))
+		op := hk.Pick(r, []string{">", "<=", "=", "<", ">=", "<>"})
+		konst := &gen.Node{Kind: "const", Const: c}
+		form := r.Intn(6)
+		if len(exact) == 0 || form < 3 {
+			return &gen.Node{Kind: "bin", Name: op, Kids: []*gen.Node{a.Node, konst}}, fmt.Sprintf("%s %s %v", a.SQL, op, c)
+		}
+		a = hk.Pick(r, exact)
+		b := hk.Pick(r, exact)
+		switch form {
+		case 3:
+			ar := hk.Pick(r, []string{"+", "-", "*"})
+			return &gen.Node{Kind: "bin", Name: op, Kids: []*gen.Node{{Kind: "bin", Name: ar, Kids: []*gen.Node{a.Node, b.Node}}, konst}},
+				fmt.Sprintf("%s %s %s %s %v", a.SQL, ar, b.SQL, op, c)
+		case 4:
+			return &gen.Node{Kind: "bin", Name: op, Kids: []*gen.Node{{Kind: "bin", Name: "*", Kids: []*gen.Node{a.Node, {Kind: "const", Const: 2}}}, konst}},
+				fmt.Sprintf("%s * 2 %s %v", a.SQL, op, c)
+		default:
+			return &gen.Node{Kind: "bin", Name: op, Kids: []*gen.Node{a.Node, b.Node}}, fmt.Sprintf("%s %s %s", a.SQL, op, b.SQL)
+		}
+	}
+	n, text := cmp()
+	if r.Chance(1, 5) {
+		n2, t2 := cmp()
+		j := hk.Pick(r, []string{"AND", "OR"})
+		n = &gen.Node{Kind: "bin", Name: j, Kids: []*gen.Node{n, n2}}
+		text = text + " " + j + " " + t2
+	}
+	return &item{Name: "_having", Node: n}, text
 }
 
 func rowKey(key map[string]interface{}, ts int64) string {
@@ -228,6 +368,12 @@ type mrow struct {
 
 // compareRows compares implementation rows with model/spec rows; returns "" if equal.
 func compareRows(impl []dbk.FlatRow, model []mrow, tols []float64) string {
+	return compareRowsAbs(impl, model, tols, 0)
+}
+
+// compareRowsAbs: as compareRows, a value also agrees when it is within `abs` of the model's
+// (sums of inexact inputs that cancel to almost nothing have no meaningful relative error).
+func compareRowsAbs(impl []dbk.FlatRow, model []mrow, tols []float64, abs float64) string {
 	mi := map[string]dbk.FlatRow{}
 	for _, r := range impl {
 		k := rowKey(r.Key, r.TS)
@@ -257,6 +403,13 @@ func compareRows(impl []dbk.FlatRow, model []mrow, tols []float64) string {
 				tol = tols[i]
 			}
 			if !hk.RatEqFloat(m.Vals[i], v, tol) {
+				if abs > 0 {
+					if mr, ok := hk.ParseRat(m.Vals[i]); ok {
+						if mf, _ := mr.Float64(); math.Abs(mf-v) <= abs {
+							continue
+						}
+					}
+				}
 				return fmt.Sprintf("row %s value %d: %v vs %s", k, i, v, m.Vals[i])
 			}
 		}
@@ -273,6 +426,10 @@ func compareRows(impl []dbk.FlatRow, model []mrow, tols []float64) string {
 // has are tolerated — and counted — when they are "empty-bucket rows": their values are exactly
 // what the selected expressions read from an empty state (known finding empty-bucket-row).
 func compareWithSpec(impl []dbk.FlatRow, spec []mrow, tols []float64, empty []string) (string, int) {
+	return compareWithSpecAbs(impl, spec, tols, empty, 0)
+}
+
+func compareWithSpecAbs(impl []dbk.FlatRow, spec []mrow, tols []float64, empty []string, abs float64) (string, int) {
 	ms := map[string]mrow{}
 	for _, r := range spec {
 		ms[modelKey(r.Key, r.TS)] = r
@@ -283,7 +440,22 @@ func compareWithSpec(impl []dbk.FlatRow, spec []mrow, tols []float64, empty []st
 		if _, ok := ms[rowKey(r.Key, r.TS)]; !ok && empty != nil && len(empty) == len(r.Values) {
 			same := true
 			for i, v := range r.Values {
-				if !hk.RatEqFloat(empty[i], v, 0) {
+				// a quotient of constants (e.g. (AVG(b) + 2) / (COUNT(a) - 10) on an empty state)
+				// is not exactly representable: the column's own tolerance applies
+				tol := 0.0
+				if i < len(tols) {
+					tol = tols[i]
+				}
+				// division by zero yields +-MaxFloat64 and anything computed from it overflows;
+				// compareRows does not compare such values either
+				if math.IsNaN(v) || math.IsInf(v, 0) || math.Abs(v) > 1e300 {
+					if er, ok := hk.ParseRat(empty[i]); ok {
+						if ef, _ := er.Float64(); math.IsInf(ef, 0) || math.Abs(ef) > 1e300 {
+							continue
+						}
+					}
+				}
+				if !hk.RatEqFloat(empty[i], v, tol) {
 					same = false
 				}
 			}
@@ -294,7 +466,7 @@ func compareWithSpec(impl []dbk.FlatRow, spec []mrow, tols []float64, empty []st
 		}
 		kept = append(kept, r)
 	}
-	return compareRows(kept, spec, tols), emptyRows
+	return compareRowsAbs(kept, spec, tols, abs), emptyRows
 }
 
 func sameRows(a, b []dbk.FlatRow) string {
@@ -367,6 +539,26 @@ func identicalFieldsWitness(ctx *hk.RunCtx) {
 	}
 }
 
+// prunedFieldWitness (observation, found by the soak of the sub-query work): a selected expression
+// that PRINTS like another table field — `IF(g = '1', f0)` next to the table fields `AVG(c) AS f0,
+// IF(g = '1', AVG(c)) AS f1` — gets its exact-match sub-merger from f1, so sourceForTable prunes f0;
+// the group operator then resolves the select list again, against the pruned fields, where the
+// name f0 is unknown and becomes SUM(f0): the column reads 0 instead of 6.
+func prunedFieldWitness(ctx *hk.RunCtx) {
+	fld := func(n string) *gen.Node { return &gen.Node{Kind: "field", Name: n} }
+	avg := func() *gen.Node {
+		return &gen.Node{Kind: "avg", Kids: []*gen.Node{fld("c"), {Kind: "const", Const: 1}}}
+	}
+	s := &dbk.Schema{Table: "t", Stream: "inbound", WhereC: -1, Res: time.Second, Retention: 100 * time.Second,
+		Fields: []dbk.FieldDef{{Name: "f0", Node: avg()}, {Name: "f1", Node: &gen.Node{Kind: "if", C: 0, Kids: []*gen.Node{avg()}}}}}
+	// with the field it names selected as well nothing is pruned: 6; alone: no value, no row
+	v, ok := witnessValue(s, []map[string]interface{}{{"c": 6.0}}, "SELECT IF(d = 'x', f0) AS q FROM t GROUP BY *")
+	ctx.Res.Hit("pruned-field-witness-run")
+	if !ok || v != 6 {
+		ctx.Res.KnownFinding("pruned-field-reresolved")
+	}
+}
+
 func witnessValue(s *dbk.Schema, vals []map[string]interface{}, sql string) (float64, bool) {
 	db, err := dbk.Open(dbk.Opts{})
 	if err != nil {
@@ -393,8 +585,11 @@ func (Engine) Run(ctx *hk.RunCtx) error {
 	if ctx.From == 0 && ctx.Replay == "" {
 		collisionWitness(ctx)
 		identicalFieldsWitness(ctx)
+		prunedFieldWitness(ctx)
 	}
-	ctx.Res.Rule = "generated (schema, dataset with flushes, 3-6 SQL queries); distinct by canonical model request; non-trivial = dataset with >= 3 accepted points and at least one query that regroups, bounds the time range, filters or has HAVING"
+	fromSubHavingWitness(ctx)
+	inSubNilWitness(ctx)
+	ctx.Res.Rule = "generated (schema, dataset with flushes, 3-6 query slots: a table query, or an IN-subquery differential (sub-query standalone, nested, literal list, preset result), or a FROM-subquery (inner standalone, nested)); distinct by canonical model request plus the sub-query texts; non-trivial = dataset with >= 3 accepted points and at least one query that regroups, bounds the time range, filters or has HAVING"
 	for i := 0; i < ctx.N; i++ {
 		idx := uint64(ctx.From + i)
 		r := hk.Derive(ctx.Seed, idx)
@@ -403,6 +598,156 @@ func (Engine) Run(ctx *hk.RunCtx) error {
 		}
 	}
 	return nil
+}
+
+// caseCtx is the state of one generated case while its queries are being run.
+type caseCtx struct {
+	ctx         *hk.RunCtx
+	r           *hk.Rng
+	idx         uint64
+	s           *dbk.Schema
+	db          *dbk.DB
+	tableFields core.Fields
+	keys        map[string]map[string]interface{} // the table's row keys
+	mops        []interface{}
+	now         time.Time
+	nPts        int
+
+	qs       []*qspec
+	mqs      []interface{}
+	impl     [][]dbk.FlatRow
+	implErr  []error
+	propFail []pf
+	probeSQL string
+	probe0   []dbk.FlatRow
+
+	insubs   []interface{}   // canonical descriptions of the IN-subquery differentials run
+	fromsubs []*fromSubCheck // FROM-subquery checks waiting for the model
+}
+
+// maxBack is the table's retention in periods.
+func (c *caseCtx) maxBack() int { return int(c.s.Retention / c.s.Res) }
+
+// submitted is what submit reports about one table query.
+type submitted struct {
+	ok   bool // parsed, fields as generated, shape modelled: the query was run and handed to the model
+	pq   *sql.Query
+	rows []dbk.FlatRow
+	err  error
+}
+
+// condBits evaluates gen.Conds on a key the way the group operator does for IF (ids 100+).
+func condBits(bm bytemap.ByteMap) []int {
+	conds := []int{}
+	for ci, c := range gen.Conds {
+		if b, isb := c.Eval(bm).(bool); isb && b {
+			conds = append(conds, 100+ci)
+		}
+	}
+	return conds
+}
+
+// submit parses a query over the table, checks that the real field expressions print like the
+// generator's nodes, summarises it for the model from the REAL parser's output, runs it and
+// queues it for the comparison with runQuery / specQuery.  `pre` (optional) is called on the
+// parsed query before its WHERE is evaluated (IN-subqueries get their values there).
+func (c *caseCtx) submit(q *qspec, pre func(pq *sql.Query) bool) submitted {
+	ctx, s := c.ctx, c.s
+	pq, perr := sql.Parse(q.SQL)
+	if perr != nil {
+		ctx.Res.Hit("query-unparsable")
+		ctx.Res.Note("unparsable generated query: %s: %v", q.SQL, perr)
+		return submitted{}
+	}
+	// the real field expressions must print like the generator's nodes
+	realFields, ferr := pq.Fields.Get(c.tableFields)
+	want := append([]item{}, q.Items...)
+	if q.Having != nil {
+		want = append(want, *q.Having)
+	}
+	ok := ferr == nil && len(realFields) == len(want)
+	if ok {
+		for j := range want {
+			if realFields[j].Name != want[j].Name || realFields[j].Expr.String() != want[j].Node.Build().String() {
+				ok = false
+			}
+		}
+	}
+	if !ok {
+		ctx.Res.Hit("query-field-mismatch")
+		ctx.Res.Note("field mismatch for %s: real %v err %v want %v", q.SQL, realFields, ferr, func() (o []string) {
+			for _, w := range want {
+				o = append(o, w.Name+" "+w.Node.Build().String())
+			}
+			return
+		}())
+		return submitted{}
+	}
+	// summary for the model, taken from the REAL parser's output
+	mq, plain := querySummary(pq, want, q.Mem)
+	if !plain || pq.Crosstab != nil || pq.FromSubQuery != nil {
+		ctx.Res.Hit("query-shape-not-modelled")
+		return submitted{}
+	}
+	if pre != nil && !pre(pq) {
+		return submitted{}
+	}
+	metas := []interface{}{}
+	for _, km := range c.keys {
+		bm := bytemap.New(km)
+		whereOk := true
+		if pq.Where != nil {
+			b, isb := pq.Where.Eval(bm).(bool)
+			whereOk = isb && b
+		}
+		metas = append(metas, map[string]interface{}{"key": dbk.KeyJSON(km), "where": whereOk, "conds": condBits(bm)})
+	}
+	mq["metas"] = metas
+	_, rows, qerr := c.db.Query(q.SQL, q.Mem, 0)
+	c.qs = append(c.qs, q)
+	c.mqs = append(c.mqs, mq)
+	c.impl = append(c.impl, rows)
+	c.implErr = append(c.implErr, qerr)
+	tag := ""
+	if q.Tag != "" {
+		tag = "[" + q.Tag + "]"
+	}
+	ctx.Res.Hit("q" + tag + ":" + kindOf(pq, q))
+	// C04 oracle: the probe returns the same rows after any query
+	_, probe1, _ := c.db.Query(c.probeSQL, true, 0)
+	if d := sameRows(c.probe0, probe1); d != "" {
+		c.propFail = append(c.propFail, pf{"C04", fmt.Sprintf("probe changed after query %q: %s", q.SQL, d)})
+	}
+	_ = s
+	return submitted{ok: true, pq: pq, rows: rows, err: qerr}
+}
+
+// querySummary renders what the model needs to know of a parsed query; plain = every GROUP BY
+// element is a bare dimension.
+func querySummary(pq *sql.Query, want []item, mem bool) (map[string]interface{}, bool) {
+	fields := []interface{}{}
+	for _, it := range want {
+		fields = append(fields, map[string]interface{}{"name": it.Name, "e": it.Node.JSON()})
+	}
+	gbNames := []string{}
+	plain := true
+	for _, gb := range pq.GroupBy {
+		gbNames = append(gbNames, gb.Name)
+		if gb.Expr.String() != gb.Name {
+			plain = false
+		}
+	}
+	mq := map[string]interface{}{"fields": fields, "selectAll": pq.HasSelectAll, "groupByAll": pq.GroupByAll,
+		"groupBy": gbNames, "resolution": fmt.Sprint(int64(pq.Resolution)), "stride": fmt.Sprint(int64(pq.Stride)),
+		"asOfOffset": fmt.Sprint(int64(pq.AsOfOffset)), "untilOffset": fmt.Sprint(int64(pq.UntilOffset)),
+		"hasSpecificFields": pq.HasSpecificFields, "hasHaving": pq.HasHaving, "hasWhere": pq.Where != nil, "mem": mem}
+	if !pq.AsOf.IsZero() {
+		mq["asOf"] = fmt.Sprint(pq.AsOf.UnixNano())
+	}
+	if !pq.Until.IsZero() {
+		mq["until"] = fmt.Sprint(pq.Until.UnixNano())
+	}
+	return mq, plain
 }
 
 func oneCase(ctx *hk.RunCtx, r *hk.Rng, idx uint64) error {
@@ -430,12 +775,10 @@ func oneCase(ctx *hk.RunCtx, r *hk.Rng, idx uint64) error {
 		ctx.Res.Hit("schema-mismatch")
 		return nil
 	}
-	tableFields := db.VerifFields(s.Table)
+	c := &caseCtx{ctx: ctx, r: r, idx: idx, s: s, db: db, tableFields: db.VerifFields(s.Table),
+		keys: map[string]map[string]interface{}{}}
 
 	// dataset
-	var mops []interface{}
-	keys := map[string]map[string]interface{}{}
-	nPts := 0
 	for _, op := range genDataset(r, s) {
 		switch v := op.(type) {
 		case string:
@@ -444,13 +787,13 @@ func oneCase(ctx *hk.RunCtx, r *hk.Rng, idx uint64) error {
 				return nil
 			}
 			db.VerifForceFlush(s.Table)
-			mops = append(mops, map[string]interface{}{"op": "flush", "sorted": sorted})
+			c.mops = append(c.mops, map[string]interface{}{"op": "flush", "sorted": sorted})
 		case dbk.Point:
 			if err := db.Insert(s.Stream, v); err != nil {
 				continue
 			}
-			nPts++
-			mops = append(mops, map[string]interface{}{"op": "ingest", "p": v.ModelJSON(tq.Where)})
+			c.nPts++
+			c.mops = append(c.mops, map[string]interface{}{"op": "ingest", "p": v.ModelJSON(tq.Where)})
 			// the resliced key of the point, as the table computes it
 			dims := bytemap.New(v.Dims)
 			km := map[string]interface{}{}
@@ -463,25 +806,20 @@ func oneCase(ctx *hk.RunCtx, r *hk.Rng, idx uint64) error {
 					}
 				}
 			}
-			keys[dbk.KeyString(km)] = km
+			c.keys[dbk.KeyString(km)] = km
 		}
 	}
 	if !db.Quiesce(10 * time.Second) {
 		ctx.Res.Inconclusive++
 		return nil
 	}
-	now := time.Unix(0, db.VerifNow())
-	if nPts == 0 {
-		now = dbk.Base
+	c.now = time.Unix(0, db.VerifNow())
+	if c.nPts == 0 {
+		c.now = dbk.Base
 	}
 
 	// queries
 	nq := r.Range(3, 6)
-	var qs []*qspec
-	var mqs []interface{}
-	var impl [][]dbk.FlatRow
-	var implErr []error
-	var propFail []pf
 	// the probe names its fields so that the plan has a group operator and therefore the
 	// table's retention window (an ungrouped SELECT * is passed through unwindowed and may
 	// show expired periods until a truncating flush removes them)
@@ -489,103 +827,35 @@ func oneCase(ctx *hk.RunCtx, r *hk.Rng, idx uint64) error {
 	for _, f := range s.AllFields() {
 		pnames = append(pnames, f.Name)
 	}
-	probeSQL := "SELECT " + strings.Join(pnames, ", ") + " FROM " + s.Table + " GROUP BY *"
-	_, probe0, _ := db.Query(probeSQL, true, 0)
+	c.probeSQL = "SELECT " + strings.Join(pnames, ", ") + " FROM " + s.Table + " GROUP BY *"
+	_, c.probe0, _ = db.Query(c.probeSQL, true, 0)
 	for i := 0; i < nq; i++ {
-		q := genQuery(r, s, now)
-		pq, perr := sql.Parse(q.SQL)
-		if perr != nil {
-			ctx.Res.Hit("query-unparsable")
-			ctx.Res.Note("unparsable generated query: %s: %v", q.SQL, perr)
-			continue
-		}
-		// the real field expressions must print like the generator's nodes
-		realFields, ferr := pq.Fields.Get(tableFields)
-		want := append([]item{}, q.Items...)
-		if q.Having != nil {
-			want = append(want, *q.Having)
-		}
-		ok := ferr == nil && len(realFields) == len(want)
-		if ok {
-			for j := range want {
-				if realFields[j].Name != want[j].Name || realFields[j].Expr.String() != want[j].Node.Build().String() {
-					ok = false
-				}
-			}
-		}
-		if !ok {
-			ctx.Res.Hit("query-field-mismatch")
-			ctx.Res.Note("field mismatch for %s: real %v err %v want %v", q.SQL, realFields, ferr, func() (o []string) { for _, w := range want { o = append(o, w.Name+" "+w.Node.Build().String()) }; return }())
-			continue
-		}
-		// summary for the model, taken from the REAL parser's output
-		fields := []interface{}{}
-		tols := []float64{}
-		for _, it := range want {
-			fields = append(fields, map[string]interface{}{"name": it.Name, "e": it.Node.JSON()})
-			tols = append(tols, tolFor(it.Node))
-		}
-		gbNames := []string{}
-		plain := true
-		for _, gb := range pq.GroupBy {
-			gbNames = append(gbNames, gb.Name)
-			if gb.Expr.String() != gb.Name {
-				plain = false
-			}
-		}
-		if !plain || pq.Crosstab != nil || pq.FromSubQuery != nil {
-			ctx.Res.Hit("query-shape-not-modelled")
-			continue
-		}
-		mq := map[string]interface{}{"fields": fields, "selectAll": pq.HasSelectAll, "groupByAll": pq.GroupByAll,
-			"groupBy": gbNames, "resolution": fmt.Sprint(int64(pq.Resolution)), "stride": fmt.Sprint(int64(pq.Stride)),
-			"asOfOffset": fmt.Sprint(int64(pq.AsOfOffset)), "untilOffset": fmt.Sprint(int64(pq.UntilOffset)),
-			"hasSpecificFields": pq.HasSpecificFields, "hasHaving": pq.HasHaving, "hasWhere": pq.Where != nil, "mem": q.Mem}
-		if !pq.AsOf.IsZero() {
-			mq["asOf"] = fmt.Sprint(pq.AsOf.UnixNano())
-		}
-		if !pq.Until.IsZero() {
-			mq["until"] = fmt.Sprint(pq.Until.UnixNano())
-		}
-		metas := []interface{}{}
-		for _, km := range keys {
-			bm := bytemap.New(km)
-			whereOk := true
-			if pq.Where != nil {
-				b, isb := pq.Where.Eval(bm).(bool)
-				whereOk = isb && b
-			}
-			conds := []int{}
-			for ci, c := range gen.Conds {
-				if b, isb := c.Eval(bm).(bool); isb && b {
-					conds = append(conds, 100+ci)
-				}
-			}
-			metas = append(metas, map[string]interface{}{"key": dbk.KeyJSON(km), "where": whereOk, "conds": conds})
-		}
-		mq["metas"] = metas
-		_, rows, qerr := db.Query(q.SQL, q.Mem, 0)
-		qs = append(qs, q)
-		mqs = append(mqs, mq)
-		impl = append(impl, rows)
-		implErr = append(implErr, qerr)
-		_ = tols
-		ctx.Res.Hit("q:" + kindOf(pq, q))
-		// C04 oracle: the probe returns the same rows after any query
-		_, probe1, _ := db.Query(probeSQL, true, 0)
-		if d := sameRows(probe0, probe1); d != "" {
-			propFail = append(propFail, pf{"C04", fmt.Sprintf("probe changed after query %q: %s", q.SQL, d)})
+		switch shape := r.Intn(100); {
+		case shape < 46:
+			c.submit(genQuery(r, s, c.now, genOpts{RichWhere: true, RichHaving: r.Chance(1, 2), MaxBack: c.maxBack()}), nil)
+		case shape < 76:
+			c.inSubCase()
+		default:
+			c.fromSubCase()
 		}
 	}
 	// C04: ... and after the next flush
 	db.VerifForceFlush(s.Table)
-	_, probe2, _ := db.Query(probeSQL, true, 0)
-	if d := sameRows(probe0, probe2); d != "" {
-		propFail = append(propFail, pf{"C04", "probe changed after the queries and a flush: " + d})
+	_, probe2, _ := db.Query(c.probeSQL, true, 0)
+	if d := sameRows(c.probe0, probe2); d != "" {
+		c.propFail = append(c.propFail, pf{"C04", "probe changed after the queries and a flush: " + d})
 	}
 
+	qs, mqs, impl, implErr := c.qs, c.mqs, c.impl, c.implErr
+	mops := c.mops
+	nPts := c.nPts
 	req := map[string]interface{}{"engine": "query", "cfg": s.CfgJSON(), "ops": mops, "metas": []interface{}{}, "queries": mqs}
-	ctx.Res.Count(req, nPts >= 3 && len(mqs) > 0)
+	canon := req
+	if len(c.insubs) > 0 || len(c.fromsubs) > 0 {
+		canon = map[string]interface{}{"engine": "query", "cfg": s.CfgJSON(), "ops": mops, "metas": []interface{}{}, "queries": mqs,
+			"insubs": c.insubs, "fromsubs": fromSubCanon(c.fromsubs)}
+	}
+	ctx.Res.Count(canon, nPts >= 3 && len(mqs) > 0)
 	if len(mqs) == 0 {
 		return nil
 	}
@@ -602,6 +872,7 @@ func oneCase(ctx *hk.RunCtx, r *hk.Rng, idx uint64) error {
 			Empty   []string        `json:"emptyVals"`
 			Grouped bool            `json:"grouped"`
 		} `json:"outs"`
+		Now string `json:"now"`
 	}
 	if err := json.Unmarshal(out, &mo); err != nil {
 		return err
@@ -637,7 +908,7 @@ func oneCase(ctx *hk.RunCtx, r *hk.Rng, idx uint64) error {
 			if q.Bounded {
 				prop = "C07"
 			}
-			if q.WhereC >= 0 || q.Having != nil {
+			if q.WhereC >= 0 || q.WhereSQL != "" || q.Having != nil {
 				prop = "C08"
 			}
 			d, emptyRows := compareWithSpec(impl[i], spec, tols, m.Empty)
@@ -652,7 +923,7 @@ func oneCase(ctx *hk.RunCtx, r *hk.Rng, idx uint64) error {
 				if d2 == "" {
 					ctx.Res.KnownFinding("C01-array-double")
 				} else {
-					propFail = append(propFail, pf{prop, fmt.Sprintf("query %q differs from the raw-point spec: %s", q.SQL, d)})
+					c.propFail = append(c.propFail, pf{prop, fmt.Sprintf("query %q differs from the raw-point spec: %s", q.SQL, d)})
 					if os.Getenv("ZVH_DEBUG") != "" {
 						fmt.Fprintf(os.Stderr, "DEBUG idx=%d sql=%s\n table=%s\n impl=%v\n model=%v\n spec=%s\n mq=%v\n", idx, q.SQL, s.SQL(), impl[i], m.Rows, string(m.Spec), mqs[i])
 					}
@@ -662,10 +933,20 @@ func oneCase(ctx *hk.RunCtx, r *hk.Rng, idx uint64) error {
 				ctx.Res.KnownFinding("empty-bucket-row")
 				ctx.Res.Hit("empty-bucket-rows:" + prop)
 			}
+			if q.Tag != "" {
+				ctx.Res.Hit("spec-checked[" + q.Tag + "]")
+			}
 		}
 	}
-	for _, f := range propFail {
-		ctx.Res.Disagree(hk.Disagreement{Kind: "property", Case: req, Detail: f.prop + ": " + f.msg, PropertyFails: true, Prop: f.prop, Index: idx})
+	// FROM-subqueries: the outer query over the materialised rows, by the model (runOver) and
+	// by the spec over those rows as points (specOver)
+	for _, f := range c.fromsubs {
+		if err := c.checkFromSub(f, mo.Now); err != nil {
+			return err
+		}
+	}
+	for _, f := range c.propFail {
+		ctx.Res.Disagree(hk.Disagreement{Kind: "property", Case: canon, Detail: f.prop + ": " + f.msg, PropertyFails: true, Prop: f.prop, Index: idx})
 	}
 	return nil
 }
